@@ -100,9 +100,21 @@ func init() {
 				var want []byte
 				var werr error
 				off := 0
+				// the writer owns one scratch buffer and re-uses it for every Write, as a caller copying through a
+				// fixed buffer does: after Write has returned the bytes handed over must no longer matter
+				// (io.Writer: "Write must not retain p"), so the buffer is overwritten at once
+				var scratch []byte
 				for _, n := range parts {
 					chunk := pattern(off, n)
-					k, err := rw.Write(chunk)
+					if cap(scratch) < n {
+						scratch = make([]byte, n)
+					}
+					buf := scratch[:n]
+					copy(buf, chunk)
+					k, err := rw.Write(buf)
+					for i := range buf {
+						buf[i] = 0xEE
+					}
 					if err != nil {
 						werr = err
 						break
